@@ -44,23 +44,43 @@ LICREF_TEXT = "custom licence text\nline 2\n"
 
 
 class FakeLicPath:
-    """Stands for Path(root) / LICENSES/LicenseRef-x.txt ; open() yields the text."""
+    """Stands for pathlib.Path in reuse.report: remembers what it was built from; only
+    <root>/LICENSES/LicenseRef-x.txt exists and yields the text (root = /proj, the working
+    directory is somewhere else)."""
 
     def __init__(self, *a):
-        pass
+        parts = [x._s if isinstance(x, FakeLicPath) else str(x) for x in a]
+        s = ""
+        for part in parts:
+            s = part if (part.startswith("/") or not s) else s.rstrip("/") + "/" + part
+        self._s = s
 
     def __truediv__(self, other):
-        return self
+        return FakeLicPath(self, other)
 
     def resolve(self):
         return self
 
     name = "proj"
 
+    def __str__(self):
+        return self._s
+
+    def __fspath__(self):
+        return self._s
+
+    def _text(self):
+        if self._s != "/proj/LICENSES/LicenseRef-x.txt":
+            raise FileNotFoundError(self._s)
+        return LICREF_TEXT
+
     def open(self, *a, **k):
         import io
 
-        return io.StringIO(LICREF_TEXT)
+        return io.StringIO(self._text())
+
+    def read_text(self, *a, **k):
+        return self._text()
 
 
 def _mk(i, name, cop, lic_idx, concluded):
@@ -137,7 +157,10 @@ def story(n0, n1, cop, l0, l1, two, person, has_person, with_ref):
     saved = rp.Path
     rp.Path = FakeLicPath
     try:
-        text = pr.bill_of_materials(creator_person=person if has_person else None, creator_organization=None)
+        try:
+            text = pr.bill_of_materials(creator_person=person if has_person else None, creator_organization=None)
+        except Exception as e:  # noqa - no document at all
+            return f"bill_of_materials raised {type(e).__name__}({e})", ""
     finally:
         rp.Path = saved
     parsed = parse(text)
@@ -229,6 +252,64 @@ def explain_bom(n0, n1, cop, l0, l1, person):
 
 
 EXPLAIN = {"_bom": explain_bom}
+
+
+# ------------------------------------------------------------------ aggregation: distinct files stay distinct
+def _agg_story(same, n0, n1, withsum):
+    """Two reports for two different paths go through the same container ProjectReport.generate uses
+    (file_reports.add); their contents - hence checksums - may be identical."""
+    a = "src/a" + NAMES[_pick(n0, len(NAMES))]
+    b = "src/a" + NAMES[_pick(n1, len(NAMES))] + "2"
+    r1, r2 = _mk(1, a, "2020 Jane Doe", 1, "NOASSERTION"), _mk(2, b, "2020 Jane Doe", 1, "NOASSERTION")
+    if same:
+        r2.chk_sum = r1.chk_sum
+    if not withsum:
+        r1.chk_sum = r2.chk_sum = None
+    pr = rp.ProjectReport(do_checksum=False)
+    pr.path = "/proj"
+    pr.licenses = {"MIT": Path("LICENSES/MIT.txt")}
+    pr.file_reports.add(r1)
+    pr.file_reports.add(r2)
+    if len(pr.file_reports) != 2:
+        return f"{len(pr.file_reports)} file report(s) kept for 2 covered files"
+    if not withsum:
+        return None
+    saved = rp.Path
+    rp.Path = FakeLicPath
+    try:
+        text = pr.bill_of_materials(creator_person=None, creator_organization=None)
+    finally:
+        rp.Path = saved
+    parsed = parse(text)
+    if parsed is None:
+        return "document does not parse as tag-value"
+    names = sorted(f.get("FileName") for f in parsed[2])
+    if names != sorted(["./" + a, "./" + b]):
+        return f"File sections {names} for covered files {[a, b]}"
+    return None
+
+
+def _agg(same: bool, n0: int, n1: int, withsum: bool) -> bool:
+    """
+    pre: 0 <= n0 < len(NAMES) and 0 <= n1 < len(NAMES)
+    post: _
+    """
+    return _agg_story(same, n0, n1, withsum) is None
+
+
+def _agg_reach(same: bool, n0: int, n1: int, withsum: bool) -> bool:
+    """
+    pre: 0 <= n0 < len(NAMES) and 0 <= n1 < len(NAMES)
+    post: False
+    """
+    return _agg_story(same, n0, n1, withsum) is None
+
+
+def explain_agg(same, n0, n1, withsum):
+    return {"same_checksum": bool(same), "with_checksum": bool(withsum), "names": ["src/a" + NAMES[_pick(n0, len(NAMES))], "src/a" + NAMES[_pick(n1, len(NAMES))] + "2"], "story": _agg_story(same, n0, n1, withsum)}
+
+
+EXPLAIN["_agg"] = explain_agg
 
 
 # ------------------------------------------------------------------ the chunked SHA-1 read
